@@ -8,9 +8,13 @@ together with every relabelling of it".
            permutations (quick: n<=4 all, iso(5) x domains.perms_sample) x node
            weights, link attribute "w" relabelled with the permutation; both
            net.permuted_copy(perm) and an independent rebuild from the
-           permuted adjacency; every public measure found by introspection
+           permuted adjacency (quick: alternating between the two from one
+           permutation to the next); every public measure found by
+           introspection
   groups   InteractingNetworks: every method taking node groups, the groups
-           mapped through the permutation, in mapped and in reversed order
+           mapped through the permutation; the lists are passed as mapped
+           (old order of positions), sorted by new number (positions
+           shuffled by the permutation) and rotated
   spatial  SpatialNetwork (euclidean grid) / GeoNetwork (lat-lon grid, surface
            weights) / ResNetwork (resistances): coordinates, resistances
            permuted with the nodes
@@ -81,7 +85,7 @@ def _clear_caches():
 
 def pA(A, perm):
     n = len(perm)
-    return [[A[perm[k]][perm[l]] for l in range(n)] for k in range(n)]
+    return [[A[perm[k]][perm[m]] for m in range(n)] for k in range(n)]
 
 
 def pv(x, perm):
@@ -368,7 +372,7 @@ def _jit(x, s):
 
 def _explore_object(clsname, build, variants, n, directed, A, perms, owners,
                     pairs, orders=("asis",), need_groups=None,
-                    jitter_build=None):
+                    jitter_build=None, alternate=False):
     """The common engine.  build(perm, variant) -> object in the numbering
     new k = old perm[k] (perm None: the original)."""
     classes = _all_classes()
@@ -376,9 +380,11 @@ def _explore_object(clsname, build, variants, n, directed, A, perms, owners,
     viol, excluded, stats = [], {}, {}
     ev = 0
     conn = is_connected(np.array(A))
-    dtag = ("directed" if directed else "undirected") + \
-        ("" if conn else "+disconnected")
-    ident = tuple(range(n))
+    An = np.array(A)
+    if directed:
+        dtag = "directed" + ("+reciprocal" if (An * An.T).any() else "")
+    else:
+        dtag = "undirected" + ("" if conn else "+disconnected")
     base = build(None, variants[0])
     plan = _plan(cls, owners, n, directed, conn, pairs, excluded, stats,
                  need_groups)
@@ -407,12 +413,30 @@ def _explore_object(clsname, build, variants, n, directed, A, perms, owners,
                 return True
         return False
 
-    for perm in perms:
+    def floatbin_case(k, obj, perm):
+        """Histogram of a float-valued node sequence: if the sequence itself
+        is equivariant within the tolerance, a differing histogram only
+        shows that a value sits on a bin edge (or all values coincide) up
+        to rounding."""
+        name, m, pat, tag, grp = plan[k]
+        if m is None or not m.has("floatbin") or m.src is None:
+            return False
+        kw = {a: v for a, v in pat.items() if a != "n_bins"}
+        ob, os_ = _call(base, m.src, kw), _call(obj, m.src, kw)
+        if ob[0] != "ok" or os_[0] != "ok":
+            return False
+        try:
+            return _relate("node", ob[1], os_[1], perm, _tol_of(m)) is None
+        except Exception:   # noqa
+            return False
+
+    for pi_, perm in enumerate(perms):
         perm = tuple(perm)
         inv = [0] * n
         for k_, o_ in enumerate(perm):
             inv[o_] = k_
-        for variant in variants:
+        for variant in ((variants[pi_ % len(variants)],) if alternate
+                        else variants):
             try:
                 obj = build(perm, variant)
             except Exception as e:   # noqa
@@ -429,19 +453,25 @@ def _explore_object(clsname, build, variants, n, directed, A, perms, owners,
                         L2n = [inv[x] for x in grp[1]]
                         if order == "rev":
                             L1n, L2n = L1n[::-1], L2n[::-1]
+                        elif order == "sorted":
+                            L1n, L2n = sorted(L1n), sorted(L2n)
+                        elif order == "rot":
+                            L1n, L2n = L1n[1:] + L1n[:1], L2n[1:] + L2n[:1]
                         lists = (list(grp[0]), list(grp[1]), L1n, L2n)
                     else:
                         L1n, L2n, lists = (), (), None
                     s = _evaluate(obj, name, pat, n, L1n, L2n)
                     ev += 1
-                    key = "%s.%s[%s]" % (clsname, name, tag)
+                    key = "%s.%s[%s]" % (mt.owner_of(cls, name),
+                                         mt.ALIASES.get(name, name), tag)
                     if b[0] == "exc" or s[0] == "exc":
                         if b[0] == s[0]:
                             if b[1].split(":")[0] == s[1].split(":")[0]:
-                                r = "raises on both: %s" % b[1].split(":")[0]
+                                r = "raises on both: %s[%s] %s" % (
+                                    name, tag, b[1].split(":")[0])
                                 excluded[r] = excluded.get(r, 0) + 1
                                 continue
-                        if ill_conditioned(k):
+                        if ill_conditioned(k) or floatbin_case(k, obj, perm):
                             r = "ill-conditioned: " + name
                             excluded[r] = excluded.get(r, 0) + 1
                             continue
@@ -485,7 +515,7 @@ def _explore_object(clsname, build, variants, n, directed, A, perms, owners,
                                 name, ("[%s]" % tag) if tag else "", perm,
                                 lists), s[1], b[1]))
                         continue
-                    if ill_conditioned(k):
+                    if ill_conditioned(k) or floatbin_case(k, obj, perm):
                         r = "ill-conditioned: " + name
                         excluded[r] = excluded.get(r, 0) + 1
                         continue
@@ -553,7 +583,8 @@ def _net_builder(clsname, A, directed, w, W, check=None):
 
 
 def fam_net(case):
-    n, directed, mask, widx, pspec = case
+    n, directed, mask, widx, pspec = case[:5]
+    alternate = len(case) > 5 and case[5] == "alt"
     A = adj(n, directed, mask).tolist()
     w = weights(n, widx) or [1.0] * n
     W = link_attr(np.array(A), 1).tolist()
@@ -574,13 +605,15 @@ def fam_net(case):
     build, jb = _net_builder("Network", A, directed, w, W, check)
     r = _explore_object("Network", build, ("permuted_copy", "rebuild"), n,
                         directed, A, _perm_list(n, pspec), None,
-                        _group_pairs(n, 3), jitter_build=jb)
+                        _group_pairs(n, 3), jitter_build=jb,
+                        alternate=alternate)
     r["viol"] = pre + r["viol"]
     return r
 
 
 def fam_groups(case):
-    n, directed, mask, widx, pspec = case
+    n, directed, mask, widx, pspec = case[:5]
+    orders = tuple(case[5]) if len(case) > 5 else ("asis", "sorted")
     A = adj(n, directed, mask).tolist()
     w = weights(n, widx) or [1.0] * n
     W = link_attr(np.array(A), 1).tolist()
@@ -588,7 +621,7 @@ def fam_groups(case):
     return _explore_object("InteractingNetworks", build, ("rebuild",), n,
                            directed, A, _perm_list(n, pspec),
                            ("InteractingNetworks",), _group_pairs(n, 9),
-                           orders=("asis", "rev"), jitter_build=jb)
+                           orders=orders, jitter_build=jb)
 
 
 def fam_spatial(case):
@@ -742,17 +775,23 @@ def run(ctx):
     for (n, d, m) in und + dire:
         for wi in ((1, 2) if (thorough and n <= 4) else (1,)):
             for ps in _pspecs(n, thorough, 6):
-                cases.append((n, d, m, wi, ps))
+                cases.append((n, d, m, wi, ps, "both" if thorough else "alt"))
+    probe = [c for c in cases if c[0] == 3 and not c[1]][-1]
+    a, b = fam_net(probe), fam_net(probe)
+    assert a["sig"] == b["sig"] and a["evals"] == b["evals"] and \
+        [v["key"] for v in a["viol"]] == [v["key"] for v in b["viol"]], \
+        "non-deterministic observations"
     ctx.explore("net", cases, desc="Network: permuted_copy and rebuild, "
                 "all public measures")
     # -- InteractingNetworks
     cases = []
-    for (n, d, m) in und + [g for g in dire if g[0] <= (4 if thorough else 3)]:
+    for (n, d, m) in und:
         for ps in _pspecs(n, thorough, 6):
-            cases.append((n, d, m, 1, ps))
+            cases.append((n, d, m, 1, ps, ["asis", "sorted", "rot"]
+                          if thorough else ["asis", "sorted"]))
     ctx.explore("groups", cases, desc="InteractingNetworks: node-group "
-                "methods, groups mapped through the permutation, mapped and "
-                "reversed list order")
+                "methods, groups mapped through the permutation; list order "
+                "as mapped, sorted by new number, rotated")
     # -- spatial classes
     cases = []
     for cn in ("SpatialNetwork", "GeoNetwork", "ResNetwork"):
@@ -808,7 +847,9 @@ def run(ctx):
         "(random ARPACK start vector in a degenerate eigenspace), "
         "tolerance 1e-6",
         "measures flagged 'und' in the table are exercised on undirected "
-        "graphs only",
+        "graphs only; the node-group methods of InteractingNetworks are "
+        "exercised on undirected networks only (class docstring: 'most "
+        "methods only give meaningful results for undirected networks')",
         "RQA line measures and the time-directed visibility measures are "
         "order-dependent by definition and excluded (C08/C14)",
         "a mismatch is discarded as ill-conditioned only if a 1e-11 relative "
